@@ -27,6 +27,7 @@ ROB(T_buf, JD, char (JD::*)[64], buffer_)
 ROB(T_lreader, Latch<RD>, RD Latch<RD>::*, reader_)
 ROB(T_lloaded, Latch<RD>, bool Latch<RD>::*, loaded_)
 ROB(T_lcur, Latch<RD>, char Latch<RD>::*, current_)
+ROB(T_lended, Latch<RD>, bool Latch<RD>::*, ended_)
 ROB(T_pqs, JD, Code (JD::*)(), parseQuotedString)
 ROB(T_pnqs, JD, Code (JD::*)(), parseNonQuotedString)
 ROB(T_pkey, JD, Code (JD::*)(), parseKey)
@@ -59,13 +60,19 @@ static Arena arena;
 #if READER == 0
 W unsigned w_jd_pos(JD* d, const unsigned char* base) { return unsigned((d->*get(T_latch()).*get(T_lreader())).p - base); }
 W unsigned w_jd_remaining(JD* d) { RD& r = d->*get(T_latch()).*get(T_lreader()); return unsigned(r.end - r.p); }
-// the stub of a cut child: consume k more bytes; leave the latch empty or holding the byte last read
-W void w_jd_child_consumed(JD* d, unsigned k, unsigned keepLatched) {
+// Effect of a cut child (parseVariant/skipVariant/parseKey...) on the input state, as a real child can leave it:
+// mode 0: k more bytes consumed, no look-ahead pending; mode 1: k>=1 more bytes consumed, the last one is the pending
+// look-ahead (a number was scanned); mode 2: the input was exhausted (latch holds the end marker).
+W void w_jd_child_effect(JD* d, unsigned k, unsigned mode) {
   Latch<RD>& l = d->*get(T_latch()); RD& r = l.*get(T_lreader());
-  l.clear();
-  for (unsigned i = 0; i < k; i++) { l.clear(); (void)l.current(); }
-  if (!keepLatched) l.clear();
+  r.p += k;
+  if (mode == 2) { r.p = r.end; l.*get(T_lloaded()) = true; l.*get(T_lcur()) = 0; l.*get(T_lended()) = true; }
+  else if (mode == 1) { char c = char(r.p[-1]); l.*get(T_lloaded()) = true; l.*get(T_lcur()) = c; if (c == 0) l.*get(T_lended()) = true; }
+  else l.*get(T_lloaded()) = false;
 }
+W void w_var_mark(VariantData* v, int tag) { v->setInteger(int32_t(tag), nullptr); }
+static int tagOf(const VariantData* v, ResourceManager* rm) { return v->isInteger<int32_t>(rm) ? v->asIntegral<int32_t>(rm) : -1; }
+W void w_jd_set_key(JD* d, const unsigned char* k, unsigned n) { StringBuilder& sb = d->*get(T_sb()); sb.startString(); for (unsigned i = 0; i < n; i++) sb.append(char(k[i])); }
 #endif
 W unsigned w_jd_latched(JD* d) { return (d->*get(T_latch()).*get(T_lloaded())) ? 1u : 0u; }
 W int w_jd_latch_char(JD* d) { return (unsigned char)(d->*get(T_latch()).*get(T_lcur())); }
@@ -153,37 +160,35 @@ W void w_psv(const unsigned char* in, unsigned n, unsigned fm, unsigned char* ou
 }
 
 // ---- container steps (children cut in unit jd_cont): AllowAll
-W void w_parse_array(const unsigned char* in, unsigned n, unsigned fm, unsigned char limit, Out* o) {
+W void w_parse_array(const unsigned char* in, unsigned n, unsigned fm, unsigned char limit, Out* o, int* tags) {
   SETUP(fm)
   VariantData v; ArrayData& a = v.toArray();
-  (void)(d.*get(T_latch())).current();  // the caller has looked at '[' already
+  d.*get(T_found()) = true; (void)(d.*get(T_latch())).current();  // the caller has looked at '[' already
   Code c = (d.*get(T_pa()))(a, AllowAllFilter(), NL(limit));
-  o->aux = unsigned(a.size(&rm)); o->aux2 = unsigned(rm.overflowed()); fill(o, d, in, c);
-  v.clear(&rm);
+  o->aux2 = unsigned(rm.overflowed()); fill(o, d, in, c); (void)tags;
 }
 W void w_skip_array(const unsigned char* in, unsigned n, unsigned char limit, Out* o) {
-  SETUP(0) (void)(d.*get(T_latch())).current();
+  SETUP(0) d.*get(T_found()) = true; (void)(d.*get(T_latch())).current();
   fill(o, d, in, (d.*get(T_sa()))(NL(limit)));
 }
 W void w_skip_object(const unsigned char* in, unsigned n, unsigned char limit, Out* o) {
-  SETUP(0) (void)(d.*get(T_latch())).current();
+  SETUP(0) d.*get(T_found()) = true; (void)(d.*get(T_latch())).current();
   fill(o, d, in, (d.*get(T_so()))(NL(limit)));
 }
 // object step: reports member count and the keys in order (first 4, each up to 4 bytes + length)
-struct ObjOut { unsigned count; unsigned klen[4]; unsigned char key[4][4]; unsigned isnull[4]; };
+struct ObjOut { unsigned count; unsigned klen[4]; unsigned char key[4][4]; unsigned isnull[4]; int tag[4]; };
 W void w_parse_object(const unsigned char* in, unsigned n, unsigned fm, unsigned char limit, Out* o, ObjOut* oo) {
   SETUP(fm)
   VariantData v; ObjectData& ob = v.toObject();
-  (void)(d.*get(T_latch())).current();
+  d.*get(T_found()) = true; (void)(d.*get(T_latch())).current();
   Code c = (d.*get(T_po()))(ob, AllowAllFilter(), NL(limit));
   JsonObjectConst obj(&ob, &rm);
   unsigned k = 0;
   for (JsonPairConst p : obj) {
-    if (k < 4) { oo->klen[k] = unsigned(p.key().size()); for (unsigned i = 0; i < 4 && i < p.key().size(); i++) oo->key[k][i] = (unsigned char)p.key().c_str()[i]; oo->isnull[k] = p.value().isNull(); }
+    if (k < 4) { oo->klen[k] = unsigned(p.key().size()); for (unsigned i = 0; i < 4 && i < p.key().size(); i++) oo->key[k][i] = (unsigned char)p.key().c_str()[i]; oo->isnull[k] = p.value().isNull(); oo->tag[k] = p.value().is<int>() ? p.value().as<int>() : -1; }
     k++;
   }
   oo->count = k; o->aux = unsigned(ob.size(&rm)); o->aux2 = unsigned(rm.overflowed()); fill(o, d, in, c);
-  v.clear(&rm);
 }
 // ---- parseVariant / skipVariant dispatch (everything below cut in unit jd_var)
 W void w_parse_variant(const unsigned char* in, unsigned n, unsigned char limit, Out* o, unsigned* kind) {
@@ -193,7 +198,6 @@ W void w_parse_variant(const unsigned char* in, unsigned n, unsigned char limit,
   JsonVariantConst jv(&v, &rm);
   *kind = jv.isNull() ? 0 : jv.is<bool>() ? (jv.as<bool>() ? 2 : 1) : jv.is<JsonArrayConst>() ? 3 : jv.is<JsonObjectConst>() ? 4 : 5;
   fill(o, d, in, c);
-  v.clear(&rm);
 }
 W void w_skip_variant(const unsigned char* in, unsigned n, unsigned char limit, Out* o) {
   SETUP(0) fill(o, d, in, (d.*get(T_sv()))(NL(limit)));
@@ -204,7 +208,6 @@ W void w_parse_top(const unsigned char* in, unsigned n, unsigned char limit, Out
   VariantData v;
   DeserializationError e = d.parse(v, AllowAllFilter(), NL(limit));
   fill(o, d, in, e.code());
-  v.clear(&rm);
 }
 W int w_pqs0(const unsigned char* in, unsigned n, unsigned char* out, unsigned* outlen, unsigned* consumed) {
   arena.next = 0;
